@@ -35,27 +35,29 @@ const (
 	fkSelfCascade
 	fkSelfNone
 	fkChildTarget
+	fkIdxExtChildTarget
 )
 
 var fkWiringNames = map[fkWiring]string{
-	fkIdxNullable:      "fk-index nullable (restrict)",
-	fkIdxNonNull:       "fk-index non-null (restrict)",
-	fkIdxCascade:       "fk-index cascade-delete",
-	fkcNoneNullable:    "fk-constraint nullable cascade-none (restrict)",
-	fkcNoneNonNull:     "fk-constraint non-null cascade-none (restrict)",
-	fkcCascadeNullable: "fk-constraint nullable cascade-delete",
-	fkcCascadeNonNull:  "fk-constraint non-null cascade-delete",
-	fkSelfIdxNullable:  "self-referential fk-index nullable (restrict)",
-	fkSelfCascade:      "self-referential fk-constraint cascade-delete",
-	fkSelfNone:         "self-referential fk-constraint cascade-none (restrict)",
-	fkChildTarget:      "fk-constraint (restrict) whose target is a child store of the referring store",
+	fkIdxNullable:       "fk-index nullable (restrict)",
+	fkIdxNonNull:        "fk-index non-null (restrict)",
+	fkIdxCascade:        "fk-index cascade-delete",
+	fkcNoneNullable:     "fk-constraint nullable cascade-none (restrict)",
+	fkcNoneNonNull:      "fk-constraint non-null cascade-none (restrict)",
+	fkcCascadeNullable:  "fk-constraint nullable cascade-delete",
+	fkcCascadeNonNull:   "fk-constraint non-null cascade-delete",
+	fkSelfIdxNullable:   "self-referential fk-index nullable (restrict)",
+	fkSelfCascade:       "self-referential fk-constraint cascade-delete",
+	fkSelfNone:          "self-referential fk-constraint cascade-none (restrict)",
+	fkChildTarget:       "fk-constraint (restrict) whose target is a child store of the referring store",
+	fkIdxExtChildTarget: "fk-index nullable (restrict) whose target is an EXTENDED child store of the referring store",
 }
 
 func (w fkWiring) hasIndex() bool {
-	return w == fkIdxNullable || w == fkIdxNonNull || w == fkIdxCascade || w == fkSelfIdxNullable
+	return w == fkIdxNullable || w == fkIdxNonNull || w == fkIdxCascade || w == fkSelfIdxNullable || w == fkIdxExtChildTarget
 }
 func (w fkWiring) nullable() bool {
-	return w == fkIdxNullable || w == fkcNoneNullable || w == fkcCascadeNullable || w == fkSelfIdxNullable || w == fkSelfCascade || w == fkSelfNone || w == fkChildTarget
+	return w == fkIdxNullable || w == fkcNoneNullable || w == fkcCascadeNullable || w == fkSelfIdxNullable || w == fkSelfCascade || w == fkSelfNone || w == fkChildTarget || w == fkIdxExtChildTarget
 }
 func (w fkWiring) cascade() bool {
 	return w == fkIdxCascade || w == fkcCascadeNullable || w == fkcCascadeNonNull || w == fkSelfCascade
@@ -64,7 +66,7 @@ func (w fkWiring) self() bool { return w == fkSelfIdxNullable || w == fkSelfCasc
 
 // childTarget: the referenced store is a plain child store of the referring store - a target exists only if the
 // entity has child data there (an entity of the parent store alone is not a valid target, not even for itself).
-func (w fkWiring) childTarget() bool { return w == fkChildTarget }
+func (w fkWiring) childTarget() bool { return w == fkChildTarget || w == fkIdxExtChildTarget }
 
 type fkModel struct {
 	sc      *fkScenario
@@ -118,7 +120,9 @@ func (m *fkModel) Render() *dump.Tree {
 			b.Values["owner"] = world.EncNil()
 		} else {
 			b.Values["owner"] = world.EncString(*o)
-			if m.sc.w.hasIndex() {
+			if m.sc.w == fkIdxExtChildTarget {
+				t.Ensure("root", "widgets", *o, "special", "widgets").Values[world.TypedKey(w)] = []byte{}
+			} else if m.sc.w.hasIndex() {
 				t.Ensure("root", tgt, *o, "widgets").Values[world.TypedKey(w)] = []byte{}
 			}
 		}
@@ -148,7 +152,7 @@ func newFkScenario(w fkWiring, ownerIds, widgetIds []string, label string) *fkSc
 	sc.widgets = world.NewStore(widgetSpec)
 	var target *world.Store
 	if w.childTarget() {
-		sc.special = world.NewStore(&world.Spec{Parent: sc.widgets, ChildPath: []string{"special"}, Fields: []world.Field{
+		sc.special = world.NewStore(&world.Spec{Parent: sc.widgets, ChildPath: []string{"special"}, Extended: w == fkIdxExtChildTarget, Fields: []world.Field{
 			{Name: "label", Kind: world.KString}, {Name: "owner", Kind: world.KStringP}, {Name: "grade", Kind: world.KInt64P, Child: true}}})
 		target = sc.special
 		sc.ownerIds = nil
@@ -165,7 +169,7 @@ func newFkScenario(w fkWiring, ownerIds, widgetIds []string, label string) *fkSc
 	ownerSym := sc.widgets.AddFkSymbolWithKey("ownedBy", "owner", target) // the symbol name differs from the stored key
 	backRef := target.AddFkSetSymbol("widgets", sc.widgets)
 	switch w {
-	case fkIdxNullable, fkSelfIdxNullable:
+	case fkIdxNullable, fkSelfIdxNullable, fkIdxExtChildTarget:
 		sc.widgets.AddNullableFkIndex(ownerSym, backRef)
 	case fkIdxNonNull:
 		sc.widgets.AddFkIndex(ownerSym, backRef)
@@ -313,6 +317,18 @@ func (m *fkModel) inCycle(id string) bool {
 
 func (sc *fkScenario) buildOps() {
 	strp := func(s string) *string { return &s }
+	// extended child store as target: whether an entity that exists in the parent store only counts as a target is
+	// not specified (the store shows it, it has no data there) - such references are not executed
+	unspecDo := func(ctx boltz.MutateContext, tgt *string) bool {
+		return sc.w == fkIdxExtChildTarget && tgt != nil && sc.widgets.IsEntityPresent(ctx.Tx(), *tgt) && sc.special.GetEntityBucket(ctx.Tx(), []byte(*tgt)) == nil
+	}
+	unspecModel := func(m *fkModel, tgt *string) bool {
+		if sc.w != fkIdxExtChildTarget || tgt == nil {
+			return false
+		}
+		_, ok := m.widgets[*tgt]
+		return ok && !m.special[*tgt]
+	}
 	for _, o := range sc.ownerIds {
 		o := o
 		sc.ops = append(sc.ops, explore.Op{
@@ -366,9 +382,17 @@ func (sc *fkScenario) buildOps() {
 			}
 			sc.ops = append(sc.ops, explore.Op{
 				Name: fmt.Sprintf("createWidget(%s,owner=%s)", w, ts),
-				Do:   func(ctx boltz.MutateContext) error { return sc.widgets.Create(ctx, sc.widgetRec(w, tgt)) },
+				Do: func(ctx boltz.MutateContext) error {
+					if unspecDo(ctx, tgt) {
+						return errSkip
+					}
+					return sc.widgets.Create(ctx, sc.widgetRec(w, tgt))
+				},
 				Apply: func(mm explore.Model) []string {
 					m := mm.(*fkModel)
+					if unspecModel(m, tgt) {
+						return []string{"skip"}
+					}
 					if _, ok := m.widgets[w]; ok {
 						return []string{"exists"}
 					}
@@ -380,9 +404,17 @@ func (sc *fkScenario) buildOps() {
 				},
 			}, explore.Op{
 				Name: fmt.Sprintf("updateWidget(%s,owner=%s)", w, ts),
-				Do:   func(ctx boltz.MutateContext) error { return sc.widgets.Update(ctx, sc.widgetRec(w, tgt), nil) },
+				Do: func(ctx boltz.MutateContext) error {
+					if unspecDo(ctx, tgt) {
+						return errSkip
+					}
+					return sc.widgets.Update(ctx, sc.widgetRec(w, tgt), nil)
+				},
 				Apply: func(mm explore.Model) []string {
 					m := mm.(*fkModel)
+					if unspecModel(m, tgt) {
+						return []string{"skip"}
+					}
 					cur, ok := m.widgets[w]
 					if !ok {
 						return []string{"notfound"}
@@ -411,6 +443,9 @@ func (sc *fkScenario) buildOps() {
 						if tgt != nil && *tgt == w {
 							return errSkip // whether an entity being created through the child store is already its own valid target is not specified
 						}
+						if unspecDo(ctx, tgt) {
+							return errSkip
+						}
 						if sc.widgets.IsEntityPresent(ctx.Tx(), w) {
 							return errSkip // promoting an existing parent entity through a child-store Create is not specified
 						}
@@ -419,6 +454,9 @@ func (sc *fkScenario) buildOps() {
 					Apply: func(mm explore.Model) []string {
 						m := mm.(*fkModel)
 						if tgt != nil && *tgt == w {
+							return []string{"skip"}
+						}
+						if unspecModel(m, tgt) {
 							return []string{"skip"}
 						}
 						if _, ok := m.widgets[w]; ok {
@@ -536,6 +574,10 @@ func (sc *fkScenario) Invariant(tx *bbolt.Tx, mm explore.Model) error {
 	targetIds := sc.ownerIds
 	if sc.w.self() {
 		target = sc.widgets
+		targetIds = sc.widgetId
+	}
+	if sc.w.childTarget() {
+		target = sc.special
 		targetIds = sc.widgetId
 	}
 	for _, o := range targetIds {
@@ -703,6 +745,7 @@ func C04(tier string) int {
 	run(newFkScenario(fkSelfIdxNullable, nil, []string{"w1", "w1x", "w3"}, "plain ids"))
 	run(newFkScenario(fkSelfNone, nil, []string{"w1", "w1x", "w3"}, "plain ids"))
 	run(newFkScenario(fkChildTarget, nil, []string{"w1", "w1x", "w3"}, "plain ids"))
+	run(newFkScenario(fkIdxExtChildTarget, nil, []string{"w1", "w1x", "w3"}, "plain ids"))
 	selfCascade := newFkScenario(fkSelfCascade, nil, []string{"w1", "w1x", "w3"}, "plain ids")
 	selfCascade.cycleCrash = probeCycleCrashes()
 	rep.Set("cascade_cycle_recursion_observed_in_child_process", selfCascade.cycleCrash)
